@@ -363,6 +363,11 @@ func run(t *testing.T, c tcase) obs {
 				_, _, e := app.PoolManagerKeeper.SwapExactAmountIn(ctx, swapper, poolIds[x.Pool], sdk.NewCoin(in, mustInt(x.Amt)), out, osmomath.OneInt())
 				return e
 			})
+		case "epochx":
+			// the end of an epoch of ANOTHER identifier than the distribution epoch: nothing may happen
+			err = apph.Atomic(ctxNow(), func(ctx sdk.Context) error {
+				return app.IncentivesKeeper.AfterEpochEnd(ctx, "not-"+app.IncentivesKeeper.GetParams(ctx).DistrEpochIdentifier, epochNo)
+			})
 		case "time":
 			now += x.Dt
 		case "epoch":
